@@ -670,29 +670,58 @@ def r89_separation(ctx, res):
     n = 0
     for cname, atoms in COORD_ATOMS.items():
         c = ctx.repo.cls(cname)
-        h, eq = c.lookup("__hash__"), c.lookup("__eq__")
-        if h is None or eq is None or h.cls.name != cname:
-            res.note("%s has no __hash__/__eq__ of its own (reported by R8.1); separation not evaluated" % cname)
+        h = c.lookup("__hash__")
+        if h is None or h.cls.name != cname:
+            res.note("%s has no __hash__ of its own (reported by R8.1); separation not evaluated" % cname)
             continue
-        eq_txt = txt(eq.node)
-        for a in atoms:
-            if a not in eq_txt:
-                raise AnalysisError("%s.__eq__ does not compare `%s`; the coordinates of %s cannot be named" % (cname, a, cname))
         comps = hashed_components(h)
+        # locals of the hash:  x = round(self.x, d)   /   x, y, z = (round(c, d) for c in (self.x, self.y, self.z) | self._v)
+        local: Dict[str, ast.AST] = {}
+        for st in walk_local(h.node):
+            if not (isinstance(st, ast.Assign) and len(st.targets) == 1):
+                continue
+            t, v = st.targets[0], st.value
+            if isinstance(t, ast.Name):
+                local[t.id] = v if t.id not in local else None
+            elif isinstance(t, (ast.Tuple, ast.List)) and all(isinstance(x, ast.Name) for x in t.elts):
+                elems = None
+                if isinstance(v, (ast.Tuple, ast.List)) and len(v.elts) == len(t.elts):
+                    elems = list(v.elts)
+                elif isinstance(v, (ast.GeneratorExp, ast.ListComp)) and len(v.generators) == 1 and not v.generators[0].ifs \
+                        and isinstance(v.generators[0].target, ast.Name):
+                    it = v.generators[0].iter
+                    src = list(it.elts) if isinstance(it, (ast.Tuple, ast.List)) else (
+                        [ast.parse(a, mode="eval").body for a in atoms] if txt(it) == atoms[0].rsplit("[", 1)[0] and "[" in atoms[0] else None)
+                    if src is not None and len(src) == len(t.elts):
+                        var = v.generators[0].target.id
 
-        def poly(e) -> Optional[Poly]:
+                        class Sub(ast.NodeTransformer):
+                            def __init__(self, repl):
+                                self.repl = repl
+
+                            def visit_Name(self, node):
+                                return self.repl if node.id == var else node
+                        import copy as _copy
+                        elems = [Sub(x).visit(_copy.deepcopy(v.elt)) for x in src]
+                if elems is not None:
+                    for x, e_ in zip(t.elts, elems):
+                        local[x.id] = e_ if x.id not in local else None
+
+        def poly(e, depth=0) -> Optional[Poly]:
             t = txt(e)
             if t in atoms:
                 return P(t)
+            if isinstance(e, ast.Name) and local.get(e.id) is not None and depth < 4:
+                return poly(local[e.id], depth + 1)
             if isinstance(e, ast.Call) and isinstance(e.func, ast.Name) and e.func.id in ("round", "float") and e.args:
-                return poly(e.args[0])  # rounding to the significant figures: monotone, identity on the lattice of rounded values
+                return poly(e.args[0], depth)  # rounding to the significant figures: monotone, identity on the lattice of rounded values
             if isinstance(e, ast.Constant) and isinstance(e.value, (int, float)) and not isinstance(e.value, bool):
                 return C(e.value)
             if isinstance(e, ast.UnaryOp) and isinstance(e.op, ast.USub):
-                q = poly(e.operand)
+                q = poly(e.operand, depth)
                 return None if q is None else pmul(C(-1), q)
             if isinstance(e, ast.BinOp) and isinstance(e.op, (ast.Add, ast.Sub, ast.Mult)):
-                l, r = poly(e.left), poly(e.right)
+                l, r = poly(e.left, depth), poly(e.right, depth)
                 if l is None or r is None:
                     return None
                 return padd(l, r) if isinstance(e.op, ast.Add) else (padd(l, r, -1) if isinstance(e.op, ast.Sub) else pmul(l, r))
@@ -712,13 +741,12 @@ def r89_separation(ctx, res):
             if alone:
                 res.ob("R8.9", h.where(alone[0]), lab, True, "component `%s` is an injective function of this coordinate alone" % txt(alone[0])[:50])
                 continue
-            if any(a in txt(cmp_) for cmp_, _ in opaque):
-                raise AnalysisError("%s: whether the hashed components separate `%s` cannot be decided (`%s`)" % (
-                    h.where(), a, txt([c_ for c_, _ in opaque if a in txt(c_)][0])[:50]))
+            pure = [q for _, q in polys if any(v != 0 and k and all(x == a for x in k) for k, v in q.items())]
+            if opaque or pure:
+                res.note("%s: whether the hashed components separate `%s` is not decided (%s)" % (
+                    h.where(), a, "`%s`" % txt(opaque[0][0])[:50] if opaque else "it enters through non-linear components only"))
+                continue
             # every component that mentions the coordinate vanishes with the other coordinates: a family of collisions
-            rest = [q for _, q in polys if any(a in k and v != 0 and all(x == a for x in k) for k, v in q.items())]
-            if rest:
-                raise AnalysisError("%s: `%s` enters the hash only through non-linear components; separation cannot be decided" % (h.where(), a))
             others = [b for b in atoms if b != a]
             res.ob("R8.9", h.where(), lab, False, "with %s = 0 no hashed component depends on it" % ", ".join(others))
             res.violation("R8.9", h, h.node,
@@ -728,7 +756,7 @@ def r89_separation(ctx, res):
                           % (cname, a, " = ".join(others), cname.lower()),
                           construct="%s.__hash__ separation of %s" % (cname, a),
                           detail={"hashed components": [txt(c_)[:80] for c_ in comps]})
-    ctx.require(res, "R8.9", n, 6, "coordinates of Point and Vector")
+    ctx.require(res, "R8.9", n, 3, "coordinates of Point and Vector")
 
 
 def r810_exact(ctx, res):
